@@ -46,6 +46,11 @@ type Check struct {
 	// KeyOf maps a violation (scenario, key) to the stable class used in the
 	// known-findings file (default: "<ID>:<scenario>:<key>").
 	KeyOf func(scenario, key string) string
+	// Keep, if set, selects which oracle failures belong to THIS property
+	// (scenario families are shared between checks: e.g. the hook-pairing
+	// oracle rides on the producer scenarios but is C14's subject, not C01's).
+	// Harness/liveness keys ("worker-crash", "goroutine-leak:*") should be kept.
+	Keep func(scenario, key string) bool
 	// Extra, if set, runs before the evidence is written (to merge the results
 	// of another part of the same check, e.g. an engine-S summary file).
 	Extra func(r *ev.Run)
@@ -231,6 +236,9 @@ func Main(t *testing.T, c *Check) {
 					res.Viol = append(res.Viol, explore.Violation{Key: "worker-crash", What: res.Crash})
 				}
 				for _, v := range res.Viol {
+					if c.Keep != nil && !c.Keep(sc.Name, v.Key) {
+						continue
+					}
 					key := c.ID + ":" + sc.Name + ":" + v.Key
 					if c.KeyOf != nil {
 						key = c.KeyOf(sc.Name, v.Key)
